@@ -79,7 +79,15 @@ Definition doc_says (cv : bool) (now : Z) (p : payload) : option (list ent) :=
 
 Definition sig_valid (sg : sigstate) : bool := match sg with SigValid => true | _ => false end.
 
-(* what an accepted load contributes; None: it must not have been accepted *)
+(* was a verification certificate configured for the source?  (load("inline", text) and load("local", file)
+   have no such parameter; a list-style item (name, cert) has, for every loader class) *)
+Definition cfg_cert (ns : bool) (sp : srcspec) : bool :=
+  match sp_kind sp with KInline | KFile => ns && sp_cert sp | _ => sp_cert sp end.
+
+Definition nonempty {A} (l : list A) : bool := match l with [] => false | _ => true end.
+
+(* what an accepted load contributes; None: it must not have been accepted (a certificate is configured,
+   the document says something, and its signature does not verify) *)
 Definition accept (ns : bool) (now : Z) (sp : srcspec) (f : fetched) : option emap :=
   match f with
   | FMissing => None
@@ -88,8 +96,7 @@ Definition accept (ns : bool) (now : Z) (sp : srcspec) (f : fetched) : option em
       | None => None
       | Some es =>
           let v := view (eff_cv ns sp) now es in
-          if eff_cert ns sp && negb (sig_valid sg) && negb (match v with [] => true | _ => false end)
-          then None else Some v
+          if cfg_cert ns sp && negb (sig_valid sg) && nonempty v then None else Some v
       end
   end.
 
@@ -129,11 +136,18 @@ Fixpoint ref_imp (ns : bool) (now : Z) (srcs : rsources) (items : list (srcspec 
   end.
 
 (* ideal MDQ cache *)
+(* under a certificate the answer must be an EntityDescriptor (the element MDQ signs) with a valid signature *)
+Definition mdq_sig_ok (cert : bool) (p : payload) (sg : sigstate) : bool :=
+  negb cert || (sig_valid sg && negb (is_group p)).
+(* what a current answer says about the entity asked for — nothing else of the answer counts *)
 Definition mdq_fresh (cert : bool) (now : Z) (srv : server) (e : string) : option ent :=
   match ask srv e with
-  | FBody (D (Single d)) sg =>
-      if String.eqb (e_id d) e && eligible_b true now d && (negb cert || sig_valid sg) then Some (prune d) else None
-  | _ => None
+  | FBody p sg =>
+      match doc_says true now p with
+      | Some es => if mdq_sig_ok cert p sg then lookup e (view true now es) else None
+      | None => None
+      end
+  | FMissing => None
   end.
 Definition mdq_get (cert : bool) (period now : Z) (srv : server) (cache : list (string * (ent * Z))) (e : string)
   : list (string * (ent * Z)) * option ent :=
@@ -165,14 +179,6 @@ Fixpoint ref_get (now : Z) (srv : server) (srcs : rsources) (e : string) : rsour
       | Some en => ((k, s') :: r, Some en)
       | None => let '(r', a) := ref_get now srv r e in ((k, s') :: r', a)
       end
-  end.
-
-Definition svc_answer (en : ent) (typ name : string) (b : option string) : answer :=
-  match ent_service en typ name b with
-  | SList (x :: l) => ASvcs (x :: l)
-  | SDict (x :: d) => ADict (x :: d)
-  | SNone => AUnknown
-  | _ => AUnsupported
   end.
 
 Fixpoint ref_attr_req (now : Z) (srv : server) (srcs : rsources) (e : string) (index : option string)
@@ -255,15 +261,27 @@ Fixpoint spec (w : rworld) (h : list op) (obs : list answer) : Prop :=
   end.
 
 (* ------------------------------------------------ executable form + class of the first failure *)
-(* a load was accepted that must not have been: class 3 when the only thing wrong is an unsigned
-   document under a configured certificate *)
-Definition load_class (ns : bool) (sp : srcspec) (f : fetched) : nat :=
+(* a load was accepted that must not have been:
+     class 3  the document is not signed at all (parse_and_check_signature lets it pass)
+     class 6  an inline source given as list-style item (text, cert): InMemoryMetaData never verifies *)
+Definition load_class (ns : bool) (now : Z) (sp : srcspec) (f : fetched) : nat :=
   match f with
-  | FBody (D _) Unsigned => if eff_cert ns sp then 3 else 99
+  | FBody (D d) sg =>
+      if cfg_cert ns sp && negb (sig_valid sg)
+         && match doc_says (eff_cv ns sp) now (D d) with Some es => nonempty (view (eff_cv ns sp) now es) | None => false end
+      then match sp_kind sp, sg with
+           | KInline, _ => 6
+           | _, Unsigned => 3
+           | _, _ => 99
+           end
+      else 99
   | _ => 99
   end.
-Definition items_class (ns : bool) (items : list (srcspec * fetched)) : nat :=
-  if existsb (fun it => Nat.eqb (load_class ns (fst it) (snd it)) 3) items then 3 else 99.
+Definition items_class (ns : bool) (now : Z) (items : list (srcspec * fetched)) : nat :=
+  match find (fun it => negb (Nat.eqb (load_class ns now (fst it) (snd it)) 99)) items with
+  | Some it => load_class ns now (fst it) (snd it)
+  | None => 99
+  end.
 
 (* more than one source has, or (MDQ) may produce, the entity *)
 Definition may_have (s : rsource) (e : string) : bool :=
@@ -285,9 +303,20 @@ Definition unsigned_answer (ef : string * fetched) : bool :=
   match snd ef with FBody (D _) Unsigned => true | _ => false end.
 
 Definition is_raise (a : answer) : bool := match a with ARaise => true | _ => false end.
+Definition q_ent (q : query) : option string :=
+  match q with
+  | QGet e | QService e _ _ _ | QSso e _ | QAcs e _ | QCerts e _ _ | QAttrReq e _ | QCats e | QReg e => Some e
+  | QKeys | QWith _ => None
+  end.
+(* the MDQ server's current answer for the entity asked about is an EntitiesDescriptor *)
+Definition group_answer (srv : server) (q : query) : bool :=
+  match q_ent q with
+  | Some e => match ask srv e with FBody (D (Group _ _)) _ => true | _ => false end
+  | None => false
+  end.
 Definition query_class (w : rworld) (seen : list server) (q : query) (a : answer) : nat :=
   let srcs := r_srcs w in
-  if has_mdq srcs && is_raise a then 5
+  if has_mdq srcs && is_raise a then (if group_answer (r_srv w) q then 7 else 5)
   else if has_mdq srcs && existsb (fun t => existsb (dirty_answer (mdq_cert srcs)) t) seen then 4
   else if has_mdq srcs && mdq_cert srcs && existsb (fun t => existsb unsigned_answer t) seen then 3
   else match q with
@@ -310,7 +339,7 @@ Fixpoint check (w : rworld) (seen : list server) (h : list op) (obs : list answe
       match obs with
       | AFlag true :: obs' => match ref_load1 ns (r_now w) (r_srcs w) sp f with
                               | Some s => check (with_srcs w s) seen r obs'
-                              | None => load_class ns sp f
+                              | None => load_class ns (r_now w) sp f
                               end
       | AFlag false :: obs' => check w seen r obs'
       | _ => 99
@@ -319,7 +348,7 @@ Fixpoint check (w : rworld) (seen : list server) (h : list op) (obs : list answe
       match obs with
       | AFlag true :: obs' => match ref_imp ns (r_now w) [] items with
                               | Some s => check (with_srcs w s) seen r obs'
-                              | None => items_class ns items
+                              | None => items_class ns (r_now w) items
                               end
       | AFlag false :: obs' => check w seen r obs'
       | _ => 99
